@@ -215,6 +215,8 @@ def pure(t, root, conv=CONVERSIONS):
         return True
     if isinstance(t, tuple) and t[:1] == ("payload",):
         return pure(t[1], root, conv)
+    if isinstance(t, tuple) and t[:1] == ("field",) and t[2] == "0":
+        return pure(t[1], root, conv)     # newtype projection (`Jwt(String)`, `Url(..)`)
     if isinstance(t, tuple) and t[:1] == ("ctor",) and len(t) == 3:
         return pure(t[2], root, conv)
     if isinstance(t, tuple) and t[:1] == ("call",) and conv.search(re.sub(r"<[^<>]*>", "", t[1])):
